@@ -1,4 +1,5 @@
 import SamplyModel.Lemmas.ChunkCache
+import SamplyModel.Lemmas.ChunkCacheIface
 /-!
 # C13 — chunk-cached file access returns exactly the underlying file's bytes
 
@@ -236,7 +237,16 @@ theorem C13_no_panic (c : Cfg) (F : List UInt8) (hc : 0 < c.chunk) (hsz : F.leng
     | into o n => simp only [spec]; split <;> simp
   · rw [hs]; simp
 
-/-! ### The two repaired defects: why the pre-fix code does not satisfy the theorems above
+/-- The oracle the model driver executes in the correspondence run (`C13.src g`: the harness's in-memory
+source for the file line `g`, failing on the bad range) satisfies the source hypotheses of the theorems above
+for the generated file `F = C13.fileSlice g 0 g.len`; so for every generated case with `len < 2^64` the
+theorems apply to exactly the model run that is compared with the real code. -/
+theorem C13_driver_source (g : C13.Gen) :
+    (C13.fileSlice g 0 g.len).length = g.len ∧ Faithful (C13.fileSlice g 0 g.len) (C13.src g) ∧
+    (g.badHi = 0 → SourceOk (C13.fileSlice g 0 g.len) (C13.src g)) :=
+  ⟨C13.fileSlice_length g 0 g.len, C13.src_faithful g, C13.src_ok g⟩
+
+/-! ### The repaired defects: why the pre-fix code does not satisfy the theorems above
 
 `readBytesAtUntilLegacy` is the code before commits 22b09fd5 / 586a1eab. Concrete 20-byte file, chunk size 8,
 delimiter `0` only at offset 12. -/
